@@ -34,19 +34,22 @@ def report_notimpl(run, meta):
 
 
 def collect(run, rng, nworlds, nqueries, mode, thresholds_fn, quality, nsteps=(4, 14), ndocs=(4, 12), depth=2,
-            scored_only=True, ops=NOFUZZY, spans=False):
+            scored_only=True, ops=NOFUZZY, spans=False, docgen=None, qgen=None, plangen=None, qbias=0.0,
+            blocklimits=(None, 1, 2, 3)):
     """Returns (traces, meta, listcases)."""
     trs, meta, cases = [], [], []
     for wi in range(nworlds):
         n = rng.randrange(ndocs[0], ndocs[1] + 1)
         adocs = {"k%d" % i: world.rand_doc(rng, boosts=(wi % 3 == 2)) for i in range(n)}
+        if docgen:
+            adocs = docgen(rng, n)
         if mode == "rank" and wi % 2 == 1:
             # document boosts that are not dyadic: the stored (32-bit) weight is not the weight that was given
             for d in adocs.values():
                 d["b4"] = rng.choice([4, 4, 0.4, 1.2, 2.8, 13.2])
-        plan = world.rand_plan(rng, adocs.keys())
+        plan = plangen(rng, adocs) if plangen else world.rand_plan(rng, adocs.keys())
         il = rng.choice([None, None, 3, 5])
-        w = world.World(adocs, plan, storage="ram", blocklimit=rng.choice([None, 1, 2, 3]), inlinelimit=il)
+        w = world.World(adocs, plan, storage="ram", blocklimit=rng.choice(list(blocklimits)), inlinelimit=il)
         try:
             wname, wobj = rng.choice(weightings(mode))
             with w.ix.searcher(weighting=wobj) as s:
@@ -54,6 +57,8 @@ def collect(run, rng, nworlds, nqueries, mode, thresholds_fn, quality, nsteps=(4
                 qs = []
                 for qi in range(nqueries):
                     aq = world.rand_query(rng, rng.randrange(0, depth + 1), scored_only=scored_only, ops=ops)
+                    if qgen:
+                        aq = qgen(rng)
                     if spans and qi % 5 == 4:
                         aq = world.rand_span_query(rng, rng.randrange(1, 3))
                     if mode == "rank" and aq["op"] == "or" and len(aq["kids"]) >= 2 and qi % 3 == 0:
@@ -70,7 +75,7 @@ def collect(run, rng, nworlds, nqueries, mode, thresholds_fn, quality, nsteps=(4
                         rdr = srch.reader()
                         hot = [d for d in range(rdr.doc_count_all()) if rdr.is_deleted(d)]
                         mtrace.run_program(rec, m, rng, rng.randrange(*nsteps), thresholds=thresholds_fn(rec, m),
-                                           blockscan=quality, maxid=len(idx["docs"]), hot=hot)
+                                           blockscan=quality, maxid=len(idx["docs"]), hot=hot, qbias=qbias)
                     ev = rec.finish()
                     for what, cls in set(rec.notimpl):
                         NOTIMPL.setdefault((what, cls), []).append(len(trs))
